@@ -452,6 +452,11 @@ def _check(prop, tier, cfg, seed, t0, ev_path, tmpdir):
     confirmed, unconfirmed = [], []
     for v in m["violations"]:
         b = race_binary if v.get("race") else binary
+        if "of real time" in v.get("detail", "") and any(c["oracle"] == v["oracle"] for c in confirmed):
+            # each replay of a real-time watchdog verdict costs the whole watchdog period: one confirmed
+            # instance per oracle is enough, the others are listed with their replay files
+            confirmed.append(dict(v, detail=v["detail"] + "\n  (not replayed: another violation of the same oracle was confirmed already)"))
+            continue
         if v.get("sidecar"):
             again = False
             for _ in range(4):
